@@ -227,6 +227,15 @@ func (c04) RunCase(c fw.Case, env *fw.Env) *fw.CaseResult {
 			}
 			g.R.Shuffle(len(op.Points), func(a, b int) { op.Points[a], op.Points[b] = op.Points[b], op.Points[a] })
 			res.Stat("straddle_updates", 1)
+		} else if step%5 == 4 && len(m.Docs) > 2 && !strings.Contains(vp, ".") {
+			// one batch names a point twice: the vector is taken away and given back in the same request
+			op = gen.Op{Kind: gen.OpUpdate, Tag: "remove-and-readd-vector"}
+			ids := m.SortedIds()
+			for i := 0; i < min(5, len(ids)); i++ {
+				id := ids[g.R.IntN(len(ids))]
+				op.Points = append(op.Points, model.Point{Id: id, Doc: model.Doc{vp: model.DeleteValue}})
+				op.Points = append(op.Points, model.Point{Id: id, Doc: model.Doc{vp: g.Vector(vc.Dim, vc.Metric)}})
+			}
 		} else {
 			op = h.Next(m)
 		}
